@@ -118,6 +118,12 @@ pub fn exec(a: &[&str]) -> String {
                     "objshorthand"
                 } else if prog.contains("@") && prog.contains(" \"") {
                     "fmtstring"
+                } else if prog.contains("@base32") && err.contains("unknown format") {
+                    // succinctly has no `@base32` / `@base32d` (C24-F29)
+                    "base32"
+                } else if prog.contains("??") && err.contains("found '?'") {
+                    // a second `?` on a term (`"v"??`, `(f)??`) is a parse error in succinctly (C24-F26)
+                    "doubleopt"
                 } else {
                     "other"
                 };
@@ -212,20 +218,21 @@ pub fn gen(tier: Tier, r: &mut Rng, emit: &mut dyn FnMut(String)) {
     }
 }
 
-/// generated core-fragment programs x 3 inputs per CLI spawn
+/// generated core-fragment programs x 3 (quick) / 12 (thorough) inputs per CLI spawn
 fn gen_runs(tier: Tier, r: &mut Rng, emit: &mut dyn FnMut(String)) {
     use crate::c23::{gen_json, gen_program, gen_root, tame_big_numbers, Ty};
     // order-sensitive programs on object families (one key set, permuted insertion orders)
     for p in ["reverse | sort", "unique", "min", "[.[0] < .[1], .[1] < .[0]]"] {
         emit(format!("C24 run {} {}", hex_bytes(p.as_bytes()), hex_bytes(crate::c23::FAMILY_FIXED.as_bytes())));
     }
-    for _ in 0..(if tier == Tier::Quick { 40 } else { 4_000 }) {
+    for _ in 0..(if tier == Tier::Quick { 40 } else { 600 }) {
         let p = *r.pick(crate::c23::ORDER_PROGS);
-        let inputs: Vec<String> = (0..3).map(|_| hex_bytes(crate::c23::gen_family(r).as_bytes())).collect();
+        let inputs: Vec<String> = (0..(if tier == Tier::Quick { 3 } else { 6 })).map(|_| hex_bytes(crate::c23::gen_family(r).as_bytes())).collect();
         emit(format!("C24 run {} {}", hex_bytes(p.as_bytes()), inputs.join(",")));
     }
-    let n = if tier == Tier::Quick { 250 } else { 40_000 };
-    let per_spawn = if tier == Tier::Quick { 3 } else { 5 };
+    // thorough: fewer CLI spawns with more inputs each (the spawn dominates the cost): 6 000 x 12
+    let n = if tier == Tier::Quick { 250 } else { 6_000 };
+    let per_spawn = if tier == Tier::Quick { 3 } else { 12 };
     for i in 0..n {
         let depth = 1 + (i % 4) as u32;
         let typed = r.chance(4, 5);
